@@ -4,10 +4,18 @@ use crate::filter::FilterExt as _;
 use crate::subscribe::Filter;
 
 /// soundness of a filter's summary w.r.t. one (arbitrary) dynamic outcome for a callsite of rank `lvl`:
-///   never => the metadata check rejects;  always => both checks accept;  Some(h) => (accepts => lvl <= h)
+///   never => the metadata check rejects;  always => both checks accept;
+///   Some(h) => (the metadata check accepts => lvl <= h)   (levels are metadata: the hint bounds `enabled`; this form is
+///   inductive through And/Or/Not - lemma_c08.verus.rs - whereas bounding only `enabled && event_enabled` is not through Or)
 fn sound(interest: u8, hint: u8, en: bool, ev: bool, lvl: u8) -> bool {
-    (interest != 0 || !en) && (interest != 2 || (en && ev)) && (hint == 6 || !(en && ev) || lvl <= hint)
+    (interest != 0 || !en) && (interest != 2 || (en && ev)) && (hint == 6 || !en || lvl <= hint)
 }
+// the summary formulas the structural lemma (lemma_c08.verus.rs) is stated over; the real combinators must compute exactly these
+fn and_i(a: u8, b: u8) -> u8 { if a == 0 { 0 } else if b != 2 { b } else { a } }
+fn and_h(a: u8, b: u8) -> u8 { if a == 6 || b == 6 { 6 } else { core::cmp::min(a, b) } }
+fn or_i(a: u8, b: u8) -> u8 { if a == 2 || b == 2 { 2 } else if a == 1 || b == 1 { 1 } else { 0 } }
+fn or_h(a: u8, b: u8) -> u8 { if a == 6 || b == 6 { 6 } else { core::cmp::max(a, b) } }
+fn not_i(a: u8) -> u8 { if a == 2 { 0 } else if a == 0 { 2 } else { 1 } }
 fn sound_fil(f: &VFil, lvl: u8) -> bool { sound(f.interest, f.hint, f.enabled, f.ev_enabled, lvl) }
 fn eval<F: Filter<VRoot>>(f: &F, lvl: u8) -> (u8, u8, bool, bool) {
     let root = VRoot::empty(); let cx = Context::__verif_new(&root);
@@ -26,6 +34,7 @@ fn c08_and_preserves_soundness() {
     let (i, h, en, ev) = eval(&a.and(b), lvl);
     assert!(en == (a.enabled && b.enabled) && ev == (a.ev_enabled && b.ev_enabled), "C08.And.decision_is_conjunction");
     assert!(sound(i, h, en, ev, lvl), "C08.And.summary_sound_given_sound_parts");
+    assert!(i == and_i(a.interest, b.interest) && h == and_h(a.hint, b.hint), "C08.And.summary_is_the_formula_of_the_structural_lemma");
 }
 #[kani::proof]
 #[kani::unwind(4)]
@@ -35,9 +44,8 @@ fn c08_or_preserves_soundness() {
     kani::assume(sound_fil(&a, lvl) && sound_fil(&b, lvl));
     let (i, h, en, ev) = eval(&a.or(b), lvl);
     assert!(en == (a.enabled || b.enabled) && ev == (a.ev_enabled || b.ev_enabled), "C08.Or.decision_is_disjunction");
-    // an Or accepts when each check is accepted by SOME part; its summary must cover that
-    assert!((i != 0 || !en) && (i != 2 || (en && ev)), "C08.Or.interest_sound_given_sound_parts");
-    assert!(h == 6 || !(a.enabled && a.ev_enabled || b.enabled && b.ev_enabled) || lvl <= h, "C08.Or.hint_sound_given_sound_parts");
+    assert!(sound(i, h, en, ev, lvl), "C08.Or.summary_sound_given_sound_parts");
+    assert!(i == or_i(a.interest, b.interest) && h == or_h(a.hint, b.hint), "C08.Or.summary_is_the_formula_of_the_structural_lemma");
 }
 #[kani::proof]
 #[kani::unwind(4)]
@@ -48,6 +56,7 @@ fn c08_not_preserves_soundness() {
     let (i, h, en, ev) = eval(&a.not(), lvl);
     assert!(en == !a.enabled, "C08.Not.decision_is_negation");
     assert!(sound(i, h, en, ev, lvl), "C08.Not.summary_sound_given_sound_part");
+    assert!(i == not_i(a.interest) && h == 6 && ev, "C08.Not.summary_is_the_formula_of_the_structural_lemma");
 }
 #[kani::proof]
 #[kani::unwind(4)]
@@ -196,6 +205,39 @@ fn c08_pick_level_hint_mixed_vec_known() {
     let i = Side { h: 3, g: 5, r: 3, psf: false, is_none: false };
     let h = hint_node(&o, &i, false);
     assert!(h == 6 || h >= need(&o, &i), "C08.pick_level_hint.not_below_what_some_layer_receives");
+}
+
+// ---------- the callers of pick_level_hint: a node publishes pick_level_hint of ITS OWN parts' hints, and the
+// `inner_is_none` it passes is the truth about ITS INNER part (the hypothesis under which pick_level_hint was proved above)
+#[kani::proof]
+#[kani::unwind(4)]
+#[kani::stub(core::fmt::Formatter::pad, pad_stub)]
+fn c08_tree_node_hint_is_pick_of_its_own_parts() {
+    let ho: u8 = nd(); let hi: u8 = nd(); kani::assume(ho <= 6 && hi <= 6);
+    let outer_none: bool = nd(); let inner_none: bool = nd();
+    let outer = if outer_none { None } else { Some(VRec { i: 0, global_enabled: true, interest: 1, hint: ho }) };
+    let inner = if inner_none { None } else { Some(VRec { i: 1, global_enabled: true, interest: 1, hint: hi }) };
+    let n: Layered<Option<VRec>, Option<VRec>, VRoot> = Layered { subscriber: outer, inner,
+        has_subscriber_filter: false, inner_has_subscriber_filter: false, inner_is_registry: false, _s: PhantomData };
+    let got = vrank(Subscribe::<VRoot>::max_level_hint(&n));
+    let oh = Subscribe::<VRoot>::max_level_hint(&n.subscriber); let ih = Subscribe::<VRoot>::max_level_hint(&n.inner);
+    assert!(vrank(oh) == if outer_none { 0 } else { ho } && vrank(ih) == if inner_none { 0 } else { hi }, "C08.Option.none_layer_hints_OFF_some_layer_hints_its_own");
+    let want = vrank(n.pick_level_hint(oh, ih, inner_none));
+    assert!(got == want, "C08.tree_node.hint_is_pick_level_hint_of_own_parts_with_inner_is_none_about_the_INNER_part");
+}
+#[kani::proof]
+#[kani::unwind(4)]
+#[kani::stub(core::fmt::Formatter::pad, pad_stub)]
+fn c08_list_node_hint_is_pick_of_its_own_parts() {
+    let ho: u8 = nd(); kani::assume(ho <= 6);
+    let outer_none: bool = nd();
+    let outer = if outer_none { None } else { Some(VRec { i: 0, global_enabled: true, interest: 1, hint: ho }) };
+    let n: Layered<Option<VRec>, VRoot, VRoot> = Layered { subscriber: outer, inner: VRoot::empty(),
+        has_subscriber_filter: false, inner_has_subscriber_filter: false, inner_is_registry: false, _s: PhantomData };
+    let got = vrank(VCollect::max_level_hint(&n));
+    let oh = Subscribe::<VRoot>::max_level_hint(&n.subscriber); let ih = VCollect::max_level_hint(&n.inner);
+    let want = vrank(n.pick_level_hint(oh, ih, false));   // the stub root is not a None layer
+    assert!(got == want, "C08.list_node.hint_is_pick_level_hint_of_own_parts");
 }
 
 // ---------- Vec<S> summaries (bounded width)
